@@ -296,7 +296,13 @@ def judgeAll (g : Graph) (ops : List Json) (rms : List RmCmd) (obs : Array Ob) :
               if !back then
                 let bad := rows.filter fun r => r.key == t && (if F.isEmpty then !r.fl.isEmpty else inter r.fl F)
                 if !bad.isEmpty then
-                  fails := fails ++ [⟨if elsewhere.contains t then kElse else none, s!"history: op {i}: {showKey t} removed from {showF}: after the next commit (op {j}) the run database still has rows of it with flows {bad.map (·.fl)}"⟩]
+                  -- rows that were not yet in the database when the command ran (their INSERT was still queued:
+                  -- `remove_task_from_flows` reads the committed rows only) belong to the deferred-commit finding
+                  let pending := match B.rows with
+                    | some rb => bad.all fun r => !(rb.any fun q => q.key == t && q.states == r.states && sameSet q.fl r.fl)
+                    | none => false
+                  let key := if elsewhere.contains t then kElse else if pending then kErase else none
+                  fails := fails ++ [⟨key, s!"history: op {i}: {showKey t} removed from {showF}: after the next commit (op {j}) the run database still has rows of it with flows {bad.map (·.fl)}" ++ (if pending then " (rows whose INSERT was still queued when the command read the tables)" else "")⟩]
               -- ... and the erasure must not hit the record of an instance spawned after the command
               match oj.get? t with
               | some y =>
